@@ -225,6 +225,27 @@ def main(argv=None):
     for un in selected:
         g = units[un].group or un
         groups.setdefault(g, []).append(units[un])
+    # quick tier: at most `gcap` harnesses per backend group and property, taken round-robin from its units (each unit's list is
+    # already ordered canary-last / primary-property-first), so that every unit of the backend contributes
+    gcap = int(os.environ.get("VERIF_QUICK_GROUP_CAP", "7"))
+    if tier == "quick" and not only:
+        for g, us in groups.items():
+            total = sum(len(selected[u.name]) for u in us)
+            if len(us) > 1 and total > gcap:
+                picked = {u.name: [] for u in us}
+                i, n = 0, 0
+                while n < gcap:
+                    progressed = False
+                    for u in us:
+                        if i < len(selected[u.name]) and n < gcap:
+                            picked[u.name].append(selected[u.name][i]); n += 1; progressed = True
+                    if not progressed:
+                        break
+                    i += 1
+                for u in us:
+                    selected[u.name] = picked[u.name]
+        groups = {g: [u for u in us if selected[u.name]] for g, us in groups.items()}
+        groups = {g: us for g, us in groups.items() if us}
     plan = []
     try:
         for g, us in groups.items():
